@@ -14,7 +14,7 @@ one_prop() {
 export -f one_prop; export out
 for n in 01 02 03 04 05 06 07 08 09 10 11 12 13 14 15 16 17 18 19 20; do
   dirs=$(ls -d seeded/C$n-* ${1:+$1/c$n-*} 2>/dev/null | tr '\n' ' ')
-  echo "C$n $dirs"
+  echo "C$n ${dirs% }"
 done | xargs -P 3 -L 1 bash -c 'one_prop "$@"' _
 python3 - <<'PY'
 import glob, re, os
